@@ -258,11 +258,20 @@ def loc_triples(location):
     return [(int(p.start), int(p.end), p.strand) for p in location.parts]
 
 
+def arc_of(parts, length):
+    """ gene parts [(start, end, strand)...] -> (start, end) ; an origin-spanning gene is (hi, length + lo) """
+    if len(parts) == 1:
+        return tuple(parts[0][:2])
+    hi = max(s for s, _, _ in parts)
+    lo = min(e for _, e, _ in parts)
+    return (hi, length + lo)
+
+
 def ring_oracle(length, circular, cutoff, anchors):
-    """ independent oracle for rules without extenders, anchors = [(start, end)] not spanning the origin:
-        connected components of 'closer than the cutoff' (ring distance on a circular record); each component's
-        core must start at a member's start, end at a member's end, contain every member and no anchor of
-        another component.  Returns the components as sorted lists of anchors. """
+    """ independent oracle for rules without extenders, anchors = [(start, end)], an anchor spanning the origin
+        being (start, length + end): connected components of 'closer than the cutoff' (ring distance on a
+        circular record); each component's core must start at a member's start, end at a member's end, contain
+        every member and no anchor of another component.  Returns the components as sorted lists of anchors. """
     parent = list(range(len(anchors)))
 
     def find(x):
@@ -272,11 +281,12 @@ def ring_oracle(length, circular, cutoff, anchors):
 
     def gap(a, b):
         (s1, e1), (s2, e2) = a, b
-        lin = max(max(s1, s2) - min(e1, e2), 0)
-        if not circular or lin == 0:
-            return lin
-        lo, hi = (a, b) if s1 <= s2 else (b, a)
-        return min(lin, max(lo[0] + length - hi[1], 0))
+        if not circular:
+            return max(max(s1, s2) - min(e1, e2), 0)
+        # overlapping arcs: one starts inside (or at the start of) the other
+        if (s2 - s1) % length < e1 - s1 or (s1 - s2) % length < e2 - s2:
+            return 0
+        return min((s2 - e1) % length, (s1 - e2) % length)
     for a, b in itertools.combinations(range(len(anchors)), 2):
         if gap(anchors[a], anchors[b]) < cutoff:
             parent[find(a)] = find(b)
@@ -286,7 +296,10 @@ def ring_oracle(length, circular, cutoff, anchors):
     return sorted(sorted(c) for c in comps.values())
 
 
-def in_parts(iv, parts):
+def in_parts(iv, parts, length=None):
+    """ is the anchor covered by the core parts; an origin-spanning anchor (end > length) needs both of its sides """
+    if length is not None and iv[1] > length:
+        return in_parts((iv[0], length), parts) and in_parts((0, iv[1] - length), parts)
     return any(s <= iv[0] and iv[1] <= e for s, e, _ in parts)
 
 
@@ -358,20 +371,27 @@ def build_case(chk, length, circular, text, genes, hits, scenario="plain"):
     return flat, out, meta
 
 
-def run_full(chk, known):
+def run_full(chk, recorded):
     rng = chk.rng
     total = 4000 if chk.tier == "quick" else 36000
     cases, impl_outs, metas = [], [], []
-    # stored witnesses of the recorded findings first
-    for entry in known.values():
-        wit = entry.get("witness", {})
+    # stored witnesses first: those of the known findings (they must still reproduce for a KNOWN-FINDING line) and, as
+    # the regression corpus, those of the repaired ones (status fixed: nothing is suppressed for them, the
+    # implementation must agree with the model and satisfy the specification on them)
+    stored = []
+    for entry in recorded:
+        stored.append((entry, entry.get("witness", {}), entry.get("status", "known")))
+        # the part of a known class that has been repaired keeps its old witness as a regression case
+        stored.append((entry, entry.get("repaired_part_witness", {}), "fixed"))
+    for entry, wit, status in stored:
         if "genes" not in wit:
             continue
+        chk.count("witness_" + status)
         genes = [(n, [tuple(p) for p in parts]) for n, parts in wit["genes"]]
         built = build_case(chk, wit["length"], wit["circular"], "\n".join(wit["rules"]), genes,
                            {k: set(v) for k, v in wit["hits"].items()}, "witness")
         if built:
-            built[2]["witness_of"] = entry["class"]
+            built[2]["witness_of" if status == "known" else "regression_of"] = entry["class"]
             for lst, item in zip((cases, impl_outs, metas), built):
                 lst.append(item)
     for _ in range(total):
@@ -419,6 +439,8 @@ def judge_full(chk, cases, impl_outs, metas, known):
         replay = dict(sample)
         replay.update({"flat": flat, "model": model, "implementation_encoded": impl, "anchors_model": anchors,
                        "function": "detect_protoclusters_and_signatures"})
+        if meta.get("regression_of"):
+            replay["regression_witness_of_repaired_class"] = meta["regression_of"]
         # (1) the per-cutoff cache must be transparent (C03_cache_transparent): model with cache == model without
         if model != spec:
             chk.violation("broken-obligation", "model of the per-cutoff cache differs from per-rule evaluation", replay)
@@ -496,18 +518,20 @@ def spec_verdict(meta, impl, anchors):
     anchors = anchors or {}
     span_anchor = any(spanning & set(a) for a in anchors.values())
     if impl[0] == 1:
+        # no exception belongs to a recorded class any more (C03-K2, K3 and K4 are repaired);
+        # the name says which of the repaired classes the exception falls in: by the stage at which the model
+        # raises when it still does, otherwise by the exception and its message
         stage = meta.get("stage")
+        text = str(meta.get("implementation", ""))
         if span_anchor:
-            cls = "origin_spanning_anchor"
-        elif circular and stage == 6 and impl[1] == common.ERR["ValueError"]:
+            cls = "origin_spanning_anchor_raises"
+        elif circular and impl[1] == common.ERR["ValueError"] and (stage == 6 or "must be in the forward strand" in text):
             cls = "merge_pair_nonforward_wrap"
-        elif circular and stage in (5, 6) and impl[1] == common.ERR["AssertionError"]:
+        elif circular and impl[1] == common.ERR["AssertionError"] and (stage in (5, 6) or "AssertionError: join{" in text):
             cls = "merge_pair_uncapped_neighbourhood"
         else:
             cls = f"exception_stage_{stage}"
         return cls, f"detection raises {common.ERR_NAME.get(impl[1], impl[1])} on a valid record"
-    if span_anchor:
-        return None     # chains through an origin-spanning anchor: outside the guard of the oracle
     protos = decode_protos(impl)
     rules = meta["parsed"]
     verdict = superiors_verdict(meta, protos, anchors)
@@ -515,30 +539,33 @@ def spec_verdict(meta, impl, anchors):
         return verdict
     for ridx, rule in enumerate(rules):
         mine = [p for p in protos if p[0] == ridx]
-        ivs = [tuple(genes_by_id(genes)[g][0][:2]) for g in anchors.get(ridx, [])]
+        ivs = [arc_of(genes_by_id(genes)[g], length) for g in anchors.get(ridx, [])]
         if rule["ext"] or rule["sups"]:
             continue        # chains of rules with superiors: superiors_verdict (linear) / correspondence only (circular)
         comps = ring_oracle(length, circular, rule["cutoff"], ivs)
         # every component is covered by exactly one core, every core covers exactly one component
         cover = []
         for comp in comps:
-            holders = [k for k, p in enumerate(mine) if all(in_parts(iv, p[1]) for iv in comp)]
+            holders = [k for k, p in enumerate(mine) if all(in_parts(iv, p[1], length) for iv in comp)]
             cover.append(holders)
         ok = len(mine) == len(comps) and all(len(h) == 1 for h in cover) and len({h[0] for h in cover}) == len(comps)
         if ok:
             for comp, holders in zip(comps, cover):
                 core = mine[holders[0]][1]
-                starts = {s for s, _, _ in core}
-                ends = {e for _, e, _ in core}
-                tight = (len(core) == 1 and core[0][0] == min(s for s, _ in comp) and core[0][1] == max(e for _, e in comp)) or \
+                wraps = any(e > length for _, e in comp)        # an origin-spanning member: the core must wrap
+                tight = (len(core) == 1 and not wraps
+                         and core[0][0] == min(s for s, _ in comp) and core[0][1] == max(e for _, e in comp)) or \
                         (len(core) == 2 and core[0][1] == length and core[1][0] == 0
-                         and core[0][0] in {s for s, _ in comp} and core[1][1] in {e for _, e in comp})
+                         and core[0][0] in {s for s, _ in comp} and core[1][1] in {e % length if e > length else e for _, e in comp})
                 if not tight:
                     ok = False
         if not ok:
-            full = any(sum(e - s for s, e, _ in p[1]) >= length for p in mine)
-            cls = "chain_not_maximal_long_way_round" if circular and long_way_round(length, rule["cutoff"], comps, mine) \
-                else "chain_not_maximal"
+            if circular and long_way_round(length, rule["cutoff"], comps, mine):
+                cls = "chain_not_maximal_long_way_round"
+            elif spanning & set(anchors.get(ridx, [])):
+                cls = "origin_spanning_anchor"
+            else:
+                cls = "chain_not_maximal"
             return cls, (f"rule r{ridx}: cores {[p[1] for p in mine]} are not the maximal cutoff-chains {comps} "
                          f"of its anchoring genes")
     return None
@@ -570,15 +597,19 @@ def superiors_verdict(meta, protos, anchors):
 
 
 def long_way_round(length, cutoff, comps, mine):
-    """ class of finding C03-K5: some reported core is a single part that covers anchors of two different chains, one of
-        which reaches across the origin (its members are within the cutoff only through the origin) """
+    """ class of finding C03-K5: some reported core is a single part that covers anchors of two different chains, or
+        the whole of a chain that reaches across the origin (its members are within the cutoff only through the origin,
+        or one of them spans the origin - then the single part is the whole record) """
     for _, core, _ in mine:
         if len(core) != 1:
             continue
-        inside = [c for c in comps if any(in_parts(iv, core) for iv in c)]
+        inside = [c for c in comps if any(in_parts(iv, core, length) for iv in c)]
+        whole = [c for c in inside if all(in_parts(iv, core, length) for iv in c)]
         if len(inside) >= 2 or any(max(e for _, e in c) - min(s for s, _ in c) > 0 and
-                                   ring_oracle(length, False, cutoff, c) != [sorted(c)] for c in inside):
+                                   ring_oracle(length, False, cutoff, c) != [sorted(c)] for c in whole):
             return True
+        if any(e > length for c in whole for _, e in c):
+            return True     # a chain with an origin-spanning member under a single part: the whole record
     return False
 
 
@@ -588,9 +619,10 @@ def genes_by_id(genes):
 def run(chk):
     if not chk.build_and_audit():
         return chk.finish(RULE)
-    known = {f["class"]: f for f in common.load_known_findings("C03") if f.get("status") == "known"}
+    recorded = common.load_known_findings("C03")
+    known = {f["class"]: f for f in recorded if f.get("status") == "known"}
     run_linear(chk)
-    cases, impl_outs, metas = run_full(chk, known)
+    cases, impl_outs, metas = run_full(chk, recorded)
     try:
         model_outs = judge_full(chk, cases, impl_outs, metas, known)
         chk.crosscheck_vm(cases, model_outs, k=(100 if chk.tier == "quick" else 700))
